@@ -477,9 +477,9 @@ theorem afr_stepCreated (p : Pool) (t : Nat) (tk : PTask) : Afr X p (p.stepCreat
     · exact h0.trans (afr_afterWorker _ t _)
     · exact (h0.trans (afr_modTask _ _ _)).trans (afr_suspendTask _ t _)
 
-theorem afr_workerNext (p : Pool) (t : Nat) : Afr X p (p.workerNext t) := by
+theorem afr_workerNext (p : Pool) (t : Nat) (tk : PTask) : Afr X p (p.workerNext t tk) := by
   unfold workerNext
-  exact ((afr_logEv p _).trans (afr_modTask _ _ _)).trans (afr_suspendTask _ t _)
+  exact (((afr_logEv p _).trans (afr_modTask _ _ _)).trans (afr_runHooks _ _ _)).trans (afr_suspendTask _ t _)
 
 theorem afr_workerCancelled (p : Pool) (t : Nat) (tk : PTask) : Afr X p (p.workerCancelled t tk) := by
   unfold workerCancelled
@@ -499,7 +499,7 @@ theorem afr_stepInWorker (p : Pool) (t : Nat) (tk : PTask) : Afr X p (p.stepInWo
     exact afr_modTask _ _ _
   · split
     · split
-      · exact afr_workerNext p t
+      · exact afr_workerNext p t tk
       · exact afr_afterWorker p t _
     · exact afr_afterWorker p t _
     · exact Afr.refl p
